@@ -125,3 +125,19 @@ package filesystem
 //gvc:  requires nn: s != nil && o != nil
 //gvc:  ensures written: err == nil ==> calls("NewObject") == 1 && lastres("NewObject") == nil && calls("WriteHeader") == 1 && lastres("WriteHeader") == nil && calls("CopyBufferPool") == 1 && lastres("CopyBufferPool") == nil && now(ow).#closeerr == nil && !now(ow).#open
 //gvc:end
+
+// DeleteOldObjectPackAndIndex (property C18: objects stay readable): with a
+// time bound the directory layer keeps a pack that is not older than the bound
+// and reports no error, so the pack may only be dropped from this storage's
+// index after the pack directory was listed again (and is dropped only when
+// the listing no longer has it).
+//gvc:func (*ObjectStorage).DeleteOldObjectPackAndIndex
+//gvc:  props C18
+//gvc:  theory int
+//gvc:  opt coarse
+//gvc:  opt frame args
+//gvc:  requires nn: s != nil
+//gvc:  loop 1 invariant pos: it1 >= 0
+//gvc:  loop 2 invariant pos: it2 >= 0
+//gvc:  ensures relisted: result == nil && !(t.wall == 0 && t.ext == 0) && old(has(s.index, h)) && !has(s.index, h) ==> calls("ObjectPacks") >= 1 && lastres("ObjectPacks") == nil
+//gvc:end
